@@ -2,30 +2,41 @@
 from obligations import obl
 from harness import o_sedov
 
-M = 'EPV.Props.C11.Sedov'
+FUNCS = ('SedovFuncs', 'SedovFuncsO2', 'SedovFuncsO3')
 PROP = dict(
     groups=['sedov'],
     obligations=[
-        obl('C11.sedov.energy', M, ['EPV.C11.sedov_energy', 'EPV.C11.r2_rpow_xg2', 'EPV.C11.shock_leaves'],
+        obl('C11.sedov.energy', 'EPV.Props.C11.Sedov', ['EPV.C11.sedov_energy', 'EPV.C11.sedov_energy_singular'],
             models=['SedovShock'], oracle=o_sedov.energy_all, tie=o_sedov.tie_assemble),
-        obl('C11.sedov.mass', M, ['EPV.C11.sedov_mass_iff_partial'], models=['SedovShock'], oracle=o_sedov.mass_all),
+        obl('C11.sedov.mass', 'EPV.Props.C11.Sedov', ['EPV.C11.sedov_mass_iff_partial', 'EPV.C11.sedov_mass_singular'],
+            models=['SedovShock', 'SedovSingular'],
+            oracle=o_sedov.mass_all),
         obl('C11.sedov.ambient', 'EPV.Props.C11.SedovAmbient',
-            ['EPV.C11.sedov_ambient_sing', 'EPV.C11.sedov_ambient_std', 'EPV.C11.sedov_ambient_vac',
-             'EPV.C11.runSing_c1', 'EPV.C11.runStd_c1', 'EPV.C11.runVac_c1', 'EPV.C11.runStd_c3'],
+            ['EPV.C11.sedov_ambient_sing', 'EPV.C11.sedov_ambient_std', 'EPV.C11.sedov_ambient_vac'],
             models=['SedovRunSing', 'SedovRunStd', 'SedovRunVac', 'SedovShock'], oracle=o_sedov.ambient),
         obl('C11.sedov.integrands', 'EPV.Props.C11.SedovIntegrands',
-            ['EPV.C11.%s_%s' % (m, t) for m in ('SedovFuncs', 'SedovFuncsO2', 'SedovFuncsO3')
-             for t in ('leaves', 'dlamdv', 'dlamdv_tree', 'efun01_pullback', 'efun02_pullback')],
-            models=['SedovFuncs', 'SedovFuncsO2', 'SedovFuncsO3'], tie=o_sedov.tie_models),
+            ['EPV.C11.%s_%s' % (m, t) for m in FUNCS
+             for t in ('efun01_pullback', 'efun02_pullback', 'eval_of_substitution_partial')] + ['EPV.C11.eval_constants'],
+            models=list(FUNCS), tie=o_sedov.tie_models),
+        obl('C11.sedov.alpha', 'EPV.Props.C11.SedovAlpha',
+            ['EPV.C11.init_alpha_code', 'EPV.C11.init_singular_closed'],
+            models=['SedovInit']),
+        obl('C11.sedov.singular', 'EPV.Lemmas.SedovSingular',
+            ['EPV.Sedov.singular_integrals', 'EPV.Sedov.singular_closed_forms', 'EPV.Sedov.singular_mass_integral',
+             'EPV.Sedov.singular_integrable', 'EPV.Sedov.singular_leaves'],
+            models=['SedovSingular']),
     ],
     corr_models=[],
     corr_n=20, oracle_budget=1.2,
     scope='Sedov (all geometries, solution types): PROVED for arbitrary similarity functions f, g, h that the energy behind the '
           'shock equals eblast at every t > 0 when alpha is what __init__ computes from the two energy integrals (generated '
           'SedovShock model + interval-integral change of variables); the mass statement is reduced to the integral identity '
-          'int g lambda^(k-1) = (gamma-1)/((gamma+1)(k-omega)) of the traced g (remaining obligation, checked numerically); the '
+          'int g lambda^(k-1) = (gamma-1)/((gamma+1)(k-omega)) of the traced g (remaining obligation, checked numerically) and '
+          'proved in full, like the energy statement, for the exactly singular solution type (closed-form f, g, h, alpha); the '
           'state ahead of the shock is the initial state on every leaf of the traced _run (all three solution types); efun01/efun02 '
-          'are the lambda-space energy integrands pulled back along lambda(v) and dlamdv = dlambda/dv (all singularity branches). '
+          'are the lambda-space energy integrands pulled back along lambda(v) (all singularity branches; the improper change of '
+          'variables itself is a hypothesis); alpha of the traced constructor is alphaCode of the two quadratures, and the '
+          'singular closed forms are the integrals of the singular similarity functions. '
           'Modelled, not verified: the root finding v(lambda), the quadrature, the 3001-node grid and the linear interpolation back '
           'to the user points (hand model EPV.Model.Sedov, tied on every run).',
 )
